@@ -300,7 +300,10 @@ def _norm(lines: List[str]) -> List[str]:
     return [l.rstrip() for l in lines if l.strip() != ""]
 
 
-def package_errors(backend: str, pkg: Dict[str, Any]) -> List[Tuple[str, str]]:
+BALANCE_DISAGREEMENTS: List[Dict[str, Any]] = []
+
+
+def package_errors(backend: str, pkg: Dict[str, Any], model=None) -> List[Tuple[str, str]]:
     """(class, description) for every completeness / consistency failure of the written package."""
     out: List[Tuple[str, str]] = []
     files = pkg["files"]
@@ -345,12 +348,22 @@ def package_errors(backend: str, pkg: Dict[str, Any]) -> List[Tuple[str, str]]:
     for seq in ("query_code", "book_code", "class_decl"):
         if seq not in seen:
             out.append(("slot-file-tie", f"no rendered template file has a loop over {seq}"))
-    # every rendered C++ file is at least bracket- and #if-balanced (whatever was injected into it)
+    # every rendered C++ file is at least bracket- and #if-balanced (whatever was injected into it): decided by the extracted
+    # Balance.text_balanced (C02_accepted_text_is_well_nested) when a model is given; the Python scanner words the message,
+    # checks the #if / #endif pairs, and must agree with the Coq verdict on the brackets
     for fname, f in files.items():
         if fname.rsplit(".", 1)[-1] in ("cxx", "cc", "cpp", "h", "hpp"):
             bad = cpp_balance(f["text"])
             if bad:
                 out.append(("unbalanced", f"rendered {fname} is not C++: {bad}"))
+            if model is not None and f["text"].isascii():
+                v = model.call("c02.balance", f["text"])
+                coq_ok = v[0] == "ok" and v[1] == "true"
+                py_ok = bad is None or "#if" in bad or "#endif" in bad
+                if coq_ok != py_ok:
+                    BALANCE_DISAGREEMENTS.append({"file": fname, "coq": v, "python": bad})
+                if not coq_ok and not bad:
+                    out.append(("unbalanced", f"rendered {fname} is not C++: Balance.text_balanced gives {v}"))
     return out
 
 
@@ -453,7 +466,7 @@ def run_case(model: core.Model, backend: str, src: str, feat: set, uni: qgen.Uni
     if c.status == "refused":
         return r
     r.raw = {k: [str(x) for x in c.pkg["slots"].get(k, [])] for k in ("query_code", "book_code", "class_decl")}
-    for cls, what in package_errors(backend, c.pkg):
+    for cls, what in package_errors(backend, c.pkg, model):
         r.findings.append(("c02:package:" + cls, what))
     if write_again:
         # the same transformed query rendered a second time (a second output directory, a retry after a late failure): what
@@ -659,6 +672,47 @@ def _cases(tier: str, rng: random.Random):
             yield be, uni, src, set(q.feat), q.ops, "qgen"
 
 
+DECLARED_COLLECTIONS = ["std::vector<const FvNS::Part*>", "std::vector<FvNS::Part*>*", "FvNS::PartVec", "FvNS::PartVec*", "std::vector<std::vector<FvNS::Part*>*>",
+                        "std::map<int, FvNS::Part*>::value_list", "std::vector<FvNS::Part*> *", "DataVector<FvNS::Part>**"]
+
+
+def declared_collection_loops(oc: core.Outcome) -> Dict[str, int]:
+    """A method declared (add_method_type_info) to return a collection is looped over AS DECLARED: held by value it is iterated
+    directly, held through k pointers (the `*` that END the declared type) it is dereferenced k times - or the code does not
+    compile against the declared class.  Text of the loop header, for each declared spelling x 3 back ends."""
+    hist: Dict[str, int] = collections.Counter()
+    for backend in BACKENDS:
+        uni = qgen.Universe(backend)
+        cname, (_, etype) = list(uni.colls.items())[0]
+        for coll in DECLARED_COLLECTIONS:
+            md = uni.metadata() + [{"metadata_type": "add_method_type_info", "type_string": etype, "method_name": "parts", "return_type_element": "FvNS::Part*",
+                                    "return_type_collection": coll},
+                                   {"metadata_type": "add_method_type_info", "type_string": "FvNS::Part", "method_name": "pt", "return_type": "double"}]
+            src = f'ds.SelectMany(lambda e: e.{cname}("b")).Select(lambda j: j.parts().Select(lambda c: c.pt()))'
+            try:
+                r = impl.translate(backend, impl.query_ast(src, md))
+            except Exception as e:  # noqa: BLE001
+                r = ("error", type(e).__name__, str(e))
+            impl.reset_globals()
+            oc.evaluations += 1
+            if r[0] != "ok":
+                hist["refused"] += 1
+                continue
+            want = len(coll.rstrip()) - len(coll.rstrip().rstrip("* "))  # the stars (and blanks between them) that end the type
+            want = coll.rstrip()[len(coll.rstrip()) - want:].count("*")
+            heads = [str(x).strip() for x in r[1]["slots"]["query_code"] if "parts()" in str(x) and str(x).strip().startswith("for ")]
+            m = re.match(r"for \(auto &&\w+ : (\**)\w+(?:->|\.)parts\(\)\)$", heads[0]) if len(heads) == 1 else None
+            got = len(m.group(1)) if m else None
+            hist["as declared" if got == want else "NOT as declared"] += 1
+            if got != want:
+                oc.violations.append(core.Violation(
+                    key="c02:declared-collection-deref:" + ("double-pointer" if want >= 2 else "pointer" if want == 1 else "by-value"),
+                    what=f"[{backend}] a method declared to return the collection {coll!r} is looped over as {heads}: {want} dereference(s) match the declaration "
+                         f"(the generated code does not compile against the declared class) - query {src}",
+                    replay={"kind": "declared-collection", "backend": backend, "query": src, "collection_type": coll, "loop_headers": heads, "dereferences_expected": want}))
+    return dict(hist)
+
+
 def check(tier: str, seed: int, t0: float, build: core.BuildStatus) -> int:
     import logging
 
@@ -693,6 +747,9 @@ def check(tier: str, seed: int, t0: float, build: core.BuildStatus) -> int:
                 if ops >= 3 and r.raw:
                     canon = re.sub(r"\d+", "#", "\n".join(_norm(r.raw["query_code"])))
                     distinct.add(be + hashlib.sha1(canon.encode()).hexdigest())
+    decl_coll = declared_collection_loops(oc)
+    for dis in BALANCE_DISAGREEMENTS[:3]:
+        oc.correspondence_breaks.append({"note": "Balance.text_balanced (Coq) and the Python bracket scanner disagree on a rendered file", **dis})
     # g++: all accepted packages in the thorough tier; in the quick tier only what the parser could not decide
     work = core.VERIF / "work" / f"c02-{os.getpid()}"
     gxx: Dict[int, List[str]] = {}
@@ -755,6 +812,8 @@ def check(tier: str, seed: int, t0: float, build: core.BuildStatus) -> int:
                "non-trivial = at least 3 query operators, distinct by emitted per-event code with generated numbers erased")
     oc.samples = [{"backend": r.backend, "query": r.src, "status": r.status} for r in results[11:15]]
     oc.extra = {
+        "loops_over_declared_method_collections": decl_coll,
+        "bracket_scanner_disagreements_coq_vs_python": len(BALANCE_DISAGREEMENTS),
         "level_wording": "checker soundness is PROVED for all programs/events/member states/histories; application to the translator is SAMPLED (translation validation of each generated query's package)",
         "status_histogram": {f"{a}:{b}": n for (a, b), n in sorted(stat.items())},
         "feature_histogram": dict(feat_hist), "origin_histogram": dict(origin_hist),
@@ -784,11 +843,26 @@ def check(tier: str, seed: int, t0: float, build: core.BuildStatus) -> int:
     return core.finish(PID, tier, seed, t0, ps, build, oc, TRUSTED, ASSUME)
 
 
+def _replay_declared(data) -> int:
+    oc = core.Outcome()
+    declared_collection_loops(oc)
+    bad = [v for v in oc.violations if v.replay.get("collection_type") == data.get("collection_type") and v.replay.get("backend") == data.get("backend")]
+    for v in bad:
+        print(v.what)
+    if bad:
+        print(f"VIOLATION property={PID} replay=(declared collection {data.get('collection_type')})")
+        return 1
+    print("the loop over the declared collection is as declared")
+    return 0
+
+
 def replay(path: str, build: core.BuildStatus) -> int:
     import logging
 
     logging.disable(logging.CRITICAL)
     data = json.loads(open(path).read())
+    if data.get("kind") == "declared-collection":
+        return _replay_declared(data)
     if data.get("no_failing_input_found"):
         print(f"replay names a broken obligation only: {data.get('broken')}")
         ps = core.proof_status(PROP_FILE, build)
